@@ -7,6 +7,7 @@
 //	R4 select          -> switch simrt.Select(hasDefault, cases...)
 //	R5 range over map  -> range simrt.MapKeys(m)
 //	R6 time.Sleep      -> simrt.Sleep
+//	R8 time.AfterFunc  -> simrt.AfterFunc (callback = simulated goroutine)
 //	R7 make(chan T, N) -> make(chan T, simrt.ChanCap(N)) for literal N >= 16
 //
 // The rules are syntactic / type directed and know nothing about sipproxy.
@@ -231,10 +232,17 @@ func (rw *rewriter) expr(e ast.Expr) ast.Expr {
 				c.Replace(call(rt("Recv"), n.X))
 			}
 		case *ast.CallExpr:
-			if rw.isTimeSleep(n) {
+			if rw.isTimeFunc(n, "Sleep") {
 				rw.needRT = true
 				rep.Rules["R6-sleep"]++
 				n.Fun = rt("Sleep")
+			}
+			// R8: time.AfterFunc(d, f) -> simrt.AfterFunc(d, f): the callback runs as a simulated goroutine that the
+			// kernel starts at the instant the (fake-clock) timer fires; the *time.Timer returned is the real one
+			if rw.isTimeFunc(n, "AfterFunc") {
+				rw.needRT = true
+				rep.Rules["R8-afterfunc"]++
+				n.Fun = rt("AfterFunc")
 			}
 			// R7: make(chan T, N) with a literal N >= 16 -> make(chan T, simrt.ChanCap(N)): a world may scale the
 			// program's queue capacities down, so that "queue full" paths run with tens of messages, not tens of thousands
@@ -257,9 +265,9 @@ func (rw *rewriter) expr(e ast.Expr) ast.Expr {
 	return res.(ast.Expr)
 }
 
-func (rw *rewriter) isTimeSleep(c *ast.CallExpr) bool {
+func (rw *rewriter) isTimeFunc(c *ast.CallExpr, name string) bool {
 	se, ok := c.Fun.(*ast.SelectorExpr)
-	if !ok || se.Sel.Name != "Sleep" {
+	if !ok || se.Sel.Name != name {
 		return false
 	}
 	id, ok := se.X.(*ast.Ident)
